@@ -453,6 +453,24 @@ func genC05(c *Ctx) {
 			c.V(fmt.Sprintf(tpl, string([]byte{byte(b)})))
 		}
 	}
+	// keywords glued to ids, longer token orders, look-alike code points: compared with the model (no hand-made verdict)
+	for _, x := range []string{"MITAND ISC", "MIT ANDISC", "ANDMIT", "ORacle", "MIT ORISC", "WITHMIT", "MIT WITHBison-exception-2.2", "MIT WITH Bison-exception-2.2AND ISC",
+		"A WITH e AND B WITH", "MIT WITH Bison-exception-2.2 AND ISC WITH", "MIT AND (ISC) WITH Bison-exception-2.2", "(MIT) +", "(MIT)+", "MIT + WITH Bison-exception-2.2",
+		"MIT) (ISC", ")MIT(", "(Bison-exception-2.2)", "( Bison-exception-2.2 AND MIT)", "MIT WITH (Bison-exception-2.2)", "(MIT WITH) Bison-exception-2.2",
+		"MIT WITH Bison-exception-2.2 WITH Classpath-exception-2.0", "MIT WITH Bison-exception-2.2+", "MIT+ WITH Bison-exception-2.2+", "(MIT OR ISC)+",
+		"DocumentRef-a:b:LicenseRef-c", "DocumentRef-a-:LicenseRef-c", "DocumentRef-a:LicenseRef-c:", "DocumentRef-a :LicenseRef-c", "DocumentRef-a: LicenseRef-c",
+		"DocumentRef-a:LicenseRef-c+", "DocumentRef-a:LicenseRef-c WITH Bison-exception-2.2", "DocumentRef-a:DocumentRef-b:LicenseRef-c", "LicenseRef-a:LicenseRef-b",
+		"LicenseRef-MIT+", "LicenseRef-MIT +", "LicenseRef-GPL-2.0-or-later", "LicenseRef-GPL-2.0-or-later+", "GPL-2.0-or-later++", "GPL-2.0-or-later +", "GPL-2.0++",
+		"GPL-2.0-only-only", "GPL-2.0-only-or-later", "GPL-2.0-or-later-only", "MIT-only+", "MIT-or-later-only", "LicenseRef-a_b", "LicenseRef-a b",
+		"MIT WITH AdditionRef-x", "AdditionRef-x", "MIT with Bison-exception-2.2", "MIT With Bison-exception-2.2", "mit AND isc", "MIT And ISC",
+		"\u212anuth-CTAN", "\u212aazlib", "Knuth-CTAN", "kazlib", "Ka\u017flib", "MIT\u017f", "\u017fleepycat", "Sleepycat", "M\u0130T", "M\u0131T", "\uff2d\uff29\uff34",
+		"CC-BY-SA-4.\u0660", "MIT\u200b", "MIT\u00ad", "\u00e9", "Apache-2.0\u2011or-later"} {
+		c.count("handmade_strings")
+		c.V(x)
+		c.X(x)
+		c.S(x, []string{"MIT"})
+		c.S("MIT", []string{x})
+	}
 	// named rejection classes and documented acceptances
 	for s, want := range map[string]string{
 		"MIT": "1", "mit": "1", "MIT AND Apache-2.0": "1", "MIT and Apache-2.0": "0", "MIT OR": "0", "MIT AND AND ISC": "0",
@@ -541,6 +559,27 @@ func genC08(c *Ctx) {
 		ctx = append(ctx, x, x+"+", x+"-only", "MIT", "GPL-2.0-only", "LicenseRef-x", ids[(idx*7+3)%len(ids)])
 		if !c.thorough() && len(ctx) > 12 {
 			ctx = append(ctx[:8], ctx[len(ctx)-4:]...)
+		}
+		// X+ and X-only+ (the '+' applied to either spelling of the pair), both spellings side by side in one expression
+		if v[0] == "1" && v[1] == "1" && c.V(x+"+") == "1" && c.V(x+"-only+") == "1" {
+			for _, y := range []string{x, x + "+", "MIT"} {
+				r1, r2 := c.S(x+"+", []string{y}), c.S(x+"-only+", []string{y})
+				if r1 != unknown && r2 != unknown && r1 != r2 {
+					c.fail("Satisfies", map[string]interface{}{"expression": x + "+", "expression_variant": x + "-only+", "allowed": []string{y}}, r1+" vs "+r2, "equal", "X and X-only are interchangeable at any position, here before '+'")
+				}
+				r1, r2 = c.S(y, []string{x + "+"}), c.S(y, []string{x + "-only+"})
+				if r1 != unknown && r2 != unknown && r1 != r2 {
+					c.fail("Satisfies", map[string]interface{}{"expression": y, "allowed": []string{x + "+"}, "allowed_variant": []string{x + "-only+"}}, r1+" vs "+r2, "equal", "X and X-only are interchangeable at any position, here before '+' in the allowed list")
+				}
+			}
+		}
+		if v[2] == "1" && v[3] == "1" {
+			for _, A := range [][]string{{x}, {x + "+"}, {"MIT"}} {
+				ra, rb, rc := c.S(sp[2]+" AND "+sp[3], A), c.S(sp[2]+" AND "+sp[2], A), c.S(sp[3]+" AND "+sp[3], A)
+				if ra != unknown && rb != unknown && rc != unknown && (ra != rb || ra != rc) {
+					c.fail("Satisfies", map[string]interface{}{"expression": sp[2] + " AND " + sp[3], "allowed": A}, ra+" vs "+rb+" vs "+rc, "equal", "X+ and X-or-later side by side in one expression: replacing either by the other changes nothing")
+				}
+			}
 		}
 		for _, pr := range [][2]int{{0, 1}, {2, 3}} {
 			a, b := sp[pr[0]], sp[pr[1]]
@@ -646,6 +685,24 @@ func genC09(c *Ctx) {
 	same := func(what string, api string, args interface{}, r1, r2 string) {
 		if r1 != unknown && r2 != unknown && r1 != r2 {
 			c.fail(api, args, r2, r1, what)
+		}
+	}
+	// code points that Unicode case folding equates with ASCII letters (Kelvin sign, long s, dotless / dotted i) are
+	// not "another letter case" of a listed id: such spellings stay invalid
+	fold := strings.NewReplacer("K", "\u212a", "k", "\u212a", "s", "\u017f", "S", "\u017f")
+	for _, x := range append(append(append([]string{}, tActive...), tDeprec...), tExcs...) {
+		y := fold.Replace(x)
+		if y == x {
+			continue
+		}
+		c.count("look_alike_spellings")
+		for _, sp := range []string{y, "MIT WITH " + y, "MIT OR " + y} {
+			if r := c.V(sp); r != unknown && r != "0" {
+				c.fail("ValidateLicenses", []string{sp}, r, "0", "only the ASCII letter case of a listed id may vary; U+212A / U+017F are different characters")
+			}
+		}
+		if r := c.S("MIT", []string{y}); r != unknown && r != "E" {
+			c.fail("Satisfies", map[string]interface{}{"expression": "MIT", "allowed": []string{y}}, r, "error", "only the ASCII letter case of a listed id may vary")
 		}
 	}
 	lic := append(append([]string{}, tActive...), tDeprec...)
@@ -1205,7 +1262,9 @@ func genC15(c *Ctx) {
 	for _, n := range []int{31, 32, 33, 63, 64, 65, 66, 100, 127, 128, 129, 255, 257, 1000, 5000} {
 		longJunk = append(longJunk, strings.Repeat("x", n), "Vendor-"+strings.Repeat("License-", n/8)+"2.0", strings.Repeat("q", n)+"-or-later", strings.Repeat("Z", n)+"+")
 	}
-	junk := []string{"FOO", "FOO-or-later", "unknown-1.0+", "LicenseRef-", "DocumentRef-", "LicenseRef-!", "DocumentRef-:", "é", "\xff", "_x", "Apache-3.0-or-later", "GPL-9.0-only", "x-or-later-or-later", "-or-later", "!"}
+	junk := []string{"ORACLE-1.0", "ANDROID-SDK", "WITHOUT-x", "ANDfoo", "ORfoo-or-later", "WITHfoo+", "\ufeffFOO", "\ufeffMIT AND FOO", "\ufeffApache-2.0-or-later AND FOO", "FOO\ufeff", "FOO)", "(FOO", "FOO:", "FOO:LicenseRef-a", "FooBar", "fOO-Only", "FOO-only", "FOO-only+", "FOO+", "FOO++", "DocumentRef-x:LicenseRef-", "DocumentRef-x:FOO",
+		"DocumentRef-x:LicenseRef-)", "DocumentRef-x:LicenseRef- AND MIT", "LicenseRef-", "(LicenseRef-)", "LicenseRef-+", "DocumentRef-)", "F\u00e9", "LicenseRef-a\u00e9 AND FOO", "Zlib-or-later-or-later",
+		"FOO", "FOO-or-later", "unknown-1.0+", "LicenseRef-", "DocumentRef-", "LicenseRef-!", "DocumentRef-:", "é", "\xff", "_x", "Apache-3.0-or-later", "GPL-9.0-only", "x-or-later-or-later", "-or-later", "!"}
 	glue := []string{" AND ", " OR ", " AND (", " OR (MIT AND ", "  AND  ", " WITH ", " ", "", "+ AND ", " AND MIT AND "}
 	check := func(s string) {
 		r := c.R(s)
@@ -1288,6 +1347,9 @@ func genC15(c *Ctx) {
 	}
 	for _, j := range junk {
 		check(j)
+		check("\ufeff" + j)
+		check("\ufeffMIT-or-later AND " + j)
+		check("(Zlib-or-later AND " + j + ")")
 		check("Apache-2.0-or-later AND " + j)
 		check("Apache-2.0-or-later\tAND " + j)
 		check("(Apache-2.0-or-later OR MIT-or-later) AND " + j)
